@@ -146,7 +146,7 @@ _DELTAMODEL = ('Model = Lean port of DeepDiff._to_delta_dict (payload from the d
                '_get_reverse_diff / __rsub__; tied to the code on every run by comparing the canonical payload, t1 + delta and t2 - delta outcomes (value, logged error, escaped '
                'exception) of the real Delta with the compiled model over generated pairs. ')
 CLAIMED['C01'] = dict(
-    text='PARTIAL. Lean 4 theorems: the round trip end to end (diff model, payload, phases of Delta.__add__ in the regenerated order) for every pair of scalars - equal or not, of one type or two, directed or not, with or without always_include_values - and whenever the whole difference is one change at the root (values of different types, dictionaries below threshold_to_diff_deeper): the result is t2, or new_type(t1) == t2 when the delta leaves the values out (C01_scalars_roundtrip, C01_root_change_roundtrip), and for every pair of flat dictionaries - string keys, scalar values, any number of keys added, removed, changed in value and changed in type at once, any threshold_to_diff_deeper (C01_flat_dict_roundtrip: the four phases used are dictionary programs over pairwise different keys; the result is a dictionary == t2 with no error logged), for every pair of NESTED dictionaries - string keys at every level, scalar leaves, any depth, any mix of differences at any levels, sub-dictionaries replaced as a whole by the threshold shortcut included (C01_nested_dict_roundtrip: induction on the nesting; an entry whose path starts with a key acts on the child under that key, the lookup of every key after the four phases is the round trip of the child under it), and for every pair of lists of scalars compared position by position - any lengths, changed values and types, a removed or an appended tail - in positional mode and, in the default mode, whenever the pairwise pass is the one DeepDiff keeps (C01_list_positional_roundtrip, C01_list_pairwise_roundtrip: item assignments at different indexes, removals from the largest index down as Delta sorts them, additions appended in order; the result is a list with items == those of t2) and, in the default mode with recorded opcodes (the difflib pass kept: at least two entries, fewer than the pairwise pass), for every alignment that tiles the lists with monotone blocks the result is exactly the list t2 (C01_list_opcodes_roundtrip: the change entries write only inside blocks that are not equal, the rebuild reads only the equal blocks); opcode replay over any tiling reproduces the new item list (lists and tuples, any length), an empty payload is the identity in every phase '
+    text='PARTIAL. Lean 4 theorems: the round trip end to end (diff model, payload, phases of Delta.__add__ in the regenerated order) for every pair of scalars - equal or not, of one type or two, directed or not, with or without always_include_values - and whenever the whole difference is one change at the root (values of different types, dictionaries below threshold_to_diff_deeper): the result is t2, or new_type(t1) == t2 when the delta leaves the values out (C01_scalars_roundtrip, C01_root_change_roundtrip), and for every pair of flat dictionaries - string keys, scalar values, any number of keys added, removed, changed in value and changed in type at once, any threshold_to_diff_deeper (C01_flat_dict_roundtrip: the four phases used are dictionary programs over pairwise different keys; the result is a dictionary == t2 with no error logged), for every pair of NESTED dictionaries - string keys at every level, scalar leaves, any depth, any mix of differences at any levels, sub-dictionaries replaced as a whole by the threshold shortcut included (C01_nested_dict_roundtrip: induction on the nesting; an entry whose path starts with a key acts on the child under that key, the lookup of every key after the four phases is the round trip of the child under it), and for every pair of lists of scalars compared position by position - any lengths, changed values and types, a removed or an appended tail - in positional mode and, in the default mode, whenever the pairwise pass is the one DeepDiff keeps (C01_list_positional_roundtrip, C01_list_pairwise_roundtrip: item assignments at different indexes, removals from the largest index down as Delta sorts them, additions appended in order; the result is a list with items == those of t2) and, in the default mode with recorded opcodes (the difflib pass kept: at least two entries, fewer than the pairwise pass), for every alignment that tiles the lists with monotone blocks the result is exactly the list t2 (C01_list_opcodes_roundtrip: the change entries write only inside blocks that are not equal, the rebuild reads only the equal blocks), and for every pair of sets whose members are told apart consistently by == and by the item hash (C01_set_roundtrip: union with the added members, difference with the removed ones); opcode replay over any tiling reproduces the new item list (lists and tuples, any length), an empty payload is the identity in every phase '
          'order, the delta of a well-formed value with its copy applies as the identity (every ordered configuration), a written location reads back the written value; Lean '
          'witnesses for the two open findings (set / tuple edited inside a tuple). ' + _DELTAMODEL + 'The round trip itself (t1 + Delta(DeepDiff(t1,t2)) == t2 with container types, inputs '
          'untouched) is decided on the implementation over generated pairs x zip x threshold x verbosity x view x always_include_values, chains of <= 6 edits, and '
@@ -158,7 +158,7 @@ CLAIMED['C01'] = dict(
 CLAIMED['C08'] = dict(
     text='PARTIAL. Lean 4 theorems: a non-bidirectional delta refuses subtraction; reversal is an involution on every ordered-mode payload and swaps the additive categories; a '
          'values_changed/type_changes entry whose location holds a value != the recorded old value adds an error in any state, errors are never forgotten through any later '
-         'phase, hence (C08_detects) a corrupted base is never accepted silently by the values_changed phase; exact inversion end to end for every pair of flat dictionaries - string keys, scalar values, any threshold (C08_flat_dict_inverse: with the bidirectional payload t1 + delta == t2 and t2 - delta == t1, every recorded old value verified, no error logged), of nested dictionaries of any depth (C08_nested_dict_inverse: the reversed payload of a level is the family of the reversed payloads of the children, so the same level lemma applies with the two dictionaries exchanged) and of lists of scalars in positional mode (C08_list_positional_inverse). ' + _DELTAMODEL + 'Exact inversion for the other shapes (t2 - delta == t1, re-adding, '
+         'phase, hence (C08_detects) a corrupted base is never accepted silently by the values_changed phase; exact inversion end to end for every pair of flat dictionaries - string keys, scalar values, any threshold (C08_flat_dict_inverse: with the bidirectional payload t1 + delta == t2 and t2 - delta == t1, every recorded old value verified, no error logged), of nested dictionaries of any depth (C08_nested_dict_inverse: the reversed payload of a level is the family of the reversed payloads of the children, so the same level lemma applies with the two dictionaries exchanged) of sets (C08_set_inverse) and of lists of scalars in positional mode (C08_list_positional_inverse). ' + _DELTAMODEL + 'Exact inversion for the other shapes (t2 - delta == t1, re-adding, '
          '+,-,+ sequences <= 6) is decided on the implementation over generated pairs; every single-location corruption at a values_changed/type_changes path is applied with '
          'raise_errors True and False and compared with the model.',
     design='5/C08',
